@@ -154,6 +154,17 @@ def place_chops(rs: Stream, geo: Dict[str, Any], opts: Dict[str, Any]) -> Dict[s
                 p, q = refblocks[bi].edge(a, k)
                 lens.append(_edge_len(geo["points"], p, q))
         lmin = min(lens)
+        if r == conflict_root and len(members) >= 3 and rs.chance(0.35):
+            # two contiguous camps: every member is chopped, the first k (in creation order, which is
+            # path order for path topologies) with one count, the others with another
+            ordered = sorted(members)
+            k = rs.randint(1, len(ordered) - 1)
+            n1 = rs.randint(2, 7)
+            n2 = n1 + rs.pick([1, 2])
+            for idx, (bi, a, par) in enumerate(ordered):
+                chops.append({"block": refblocks[bi].name, "axis": a, "sections": [_explicit_chop(rs, n1 if idx < k else n2, lmin, plain=True)]})
+            meta["adjacent_conflict"] = 1
+            continue
         if r == conflict_root:
             # two sources, different explicit counts
             first = rs.pick(members)
@@ -173,9 +184,11 @@ def place_chops(rs: Stream, geo: Dict[str, Any], opts: Dict[str, Any]) -> Dict[s
             # often more sources that agree with the first one: the odd one out may then be
             # surrounded by blocks that agree among themselves
             rest = [m for m in partners if m != second]
-            nmore = rs.weighted([(0, 4), (1, 3), (2, 2), (3, 1)])
+            nmore = rs.weighted([(0, 3), (1, 3), (2, 2), (3, 2), (4, 1)])
+            two_camps = rs.chance(0.4)  # the other count may have supporters too
             for (bi, a, par) in rs.shuffled(rest)[:nmore]:
-                chops.append({"block": refblocks[bi].name, "axis": a, "sections": [_explicit_chop(rs, n1, lmin, plain=True)]})
+                n_here = n2 if (two_camps and rs.chance(0.5)) else n1
+                chops.append({"block": refblocks[bi].name, "axis": a, "sections": [_explicit_chop(rs, n_here, lmin, plain=True)]})
             continue
         nsrc = 1
         if len(members) >= 2 and rs.chance(p_multi):
@@ -288,7 +301,7 @@ def _perp(axis):
 def gen_shape_program(rs: Stream, cfg_seed: int) -> Dict[str, Any]:
     """Realistic curved topologies built by the library's own shapes; the reference model
     judges them from the operations' points and chops read before assembly."""
-    kind = rs.pick(["cylinder", "frustum", "ring", "hemisphere", "cyl_cyl", "cyl_ring", "cyl_hemi", "cyl_frustum", "ring_ring", "tjoint", "ljoint", "stack", "tstack"])
+    kind = rs.pick(["cylinder", "frustum", "ring", "hemisphere", "cyl_cyl", "cyl_ring", "cyl_hemi", "cyl_frustum", "ring_ring", "tjoint", "ljoint", "stack", "tstack", "tstack", "tstack"])
     o = [round(rs.uniform(-3, 3), 3) for _ in range(3)]
     ax = [rs.uniform(-1, 1) for _ in range(3)]
     n = math.sqrt(sum(x * x for x in ax)) or 1.0
